@@ -843,7 +843,8 @@ def _diffcheck(res, fn, cfg, opts, solver, p, obls):
     except Skip:
         return
     except Exception as e:
-        res.errors.append('differential run raised %r' % (e,))
+        res.errors.append('differential run raised %r at %r\n%s' % (
+            e, env, traceback.format_exc()[-1500:]))
         return
     ufs = UFRegistry()
     conc = {ob[1]: ob for ob in Bc.obls}
